@@ -75,6 +75,8 @@ OPT = """For this round produce THREE changes (`a`, `b`, `c`), and make each of 
 
 ROBUST = """For this round produce THREE changes (`a`, `b`, `c`), and make each of them a well-meant HARDENING / LENIENCY / CONVENIENCE change of the kind that arrives as 'make icontract more robust' or 'be friendlier to users' -- one that happens to break the property. Ideas: wrap something in `try/except` and fall back (to a default value, to skipping the step, to a simpler message, to `repr()`), so that an error that should surface is absorbed or replaced; accept more inputs than before (duck-typing instead of an exact test, `callable()` instead of `isfunction`, truthiness instead of `is None`, a missing argument filled with `None` instead of a TypeError, awaitables accepted where coroutines were required, subclasses / proxies / partials treated like the real thing); tolerate an inconsistent state instead of raising (`dict.get` with a default, `getattr(..., None)`, `setdefault`, ignoring a duplicate, de-duplicating, clamping an index); add a guard against a rare crash that also skips legitimate work (`if not x: return`, `hasattr` checks, early exit for empty input); reset or clean up state 'defensively' (clearing the in-progress marker, re-creating a list, copying 'to be safe' -- or not copying to 'keep identity'); make behaviour depend on an environment variable, `__debug__`, `sys.flags` or the interpreter version 'for compatibility'; log / warn instead of raise; retry once. 5-40 changed lines each; each change should come with the short comment or docstring line a real commit would carry (the motivation), and must not mention that it breaks anything. Spread the three over different functions and clauses of the property."""
 
+FEATURE = """For this round produce THREE changes (`a`, `b`, `c`), and make each of them a small well-meant FEATURE, EXTENSION or 'FIX' of something else, of the kind that arrives as a pull request from a user -- one that happens to break the property for inputs its author did not think of. Ideas: support a new kind of decorated object or condition (functools.partial, bound methods, callable objects, classmethod/staticmethod objects given directly, generators / async generators, `typing.Protocol` or dataclass-generated methods, slots classes, descriptors other than property) by adding a branch that slightly changes what the existing kinds get; add an optional parameter, environment switch or module-level setting (a global default error, a global enable flag, a per-class opt-out, a 'strict' mode, a maximum message length) whose default path is not exactly the old behaviour; make messages 'nicer' (extra context, truncation, de-duplication of values, different ordering, showing `self`, hiding long reprs, i18n-style templates); make inheritance 'smarter' (skip contracts that are identical, merge equal snapshots by name, let a subclass opt out, propagate invariants to nested classes, treat `__init_subclass__`/mixins specially); add convenience aliases or reserved argument names (`_ARGS`, `_KWARGS`, `result`, `OLD`, `self`-like names such as `this`/`cls`) that shadow or reinterpret user parameters; 'fix' an annoyance (allow a condition to return None as 'no opinion', allow error= to be a string, re-raise user exceptions wrapped in ViolationError, evaluate postconditions also when the body raises, check invariants also on private methods or on `__repr__`, un-suspend checks inside conditions) in a way that changes a documented verdict; adapt to a newer Python (use `inspect.get_annotations`, `functools.cache`, `match`, `ExceptionGroup`, `contextvars.Context.run`, `asyncio.TaskGroup`, positional-only syntax) with a subtle difference. 5-40 changed lines each; each change should come with the short comment or docstring line a real pull request would carry (the motivation), and must not mention that it breaks anything. Spread the three over different functions and clauses of the property."""
+
 for line in open("/verif/properties.jsonl"):
     rec = json.loads(line)
     pid = rec["id"]
@@ -85,6 +87,8 @@ for line in open("/verif/properties.jsonl"):
         st = OPT
     elif style == "robust":
         st = ROBUST
+    elif style == "feature":
+        st = FEATURE
     elif style == "regress":
         hashes = FIXES.get(pid, [])
         relevant = ("The ones most relevant to this property: %s. " % ", ".join(hashes)) if hashes else "Pick whichever of them touches this property's mechanism (if none does, both changes are free). "
@@ -94,7 +98,7 @@ for line in open("/verif/properties.jsonl"):
     text = TEMPLATE.format(wt=wt, out=out, pid=pid, record=json.dumps(rec, indent=1), style=st)
     if style in ("small", "small2"):
         text = text.replace("Produce TWO independent changes (call them `a`, `b`)", "Produce FOUR independent changes (call them `a`, `b`, `c`, `d`)").replace("`{out}/{pid}/a/`, `.../b/`:".format(out=out, pid=pid), "`{out}/{pid}/a/`, `.../b/`, `.../c/`, `.../d/`:".format(out=out, pid=pid)).replace("a brief description of the two changes", "a brief description of the four changes")
-    if style in ("opt", "robust"):
+    if style in ("opt", "robust", "feature"):
         text = text.replace("Produce TWO independent changes (call them `a`, `b`)", "Produce THREE independent changes (call them `a`, `b`, `c`)").replace("`{out}/{pid}/a/`, `.../b/`:".format(out=out, pid=pid), "`{out}/{pid}/a/`, `.../b/`, `.../c/`:".format(out=out, pid=pid)).replace("a brief description of the two changes", "a brief description of the three changes")
     open(os.path.join(out, "prompt_%s.txt" % pid), "w").write(text)
 print("wrote 20 prompts to", out)
